@@ -21,7 +21,9 @@ LEVEL = "proof"
 STRENGTH = "partial"
 ENGINES = ["lean-model", "kopfsim"]
 TIE = ("S: step refinement — each real processing cycle replayed through the Lean `C14.step` (memory flags, cause, gate, the whole pass "
-       "`C02.cycleB`), each served admission request through `C14.admission` (the object's memory before → after)")
+       "`C02.cycleB`), each served admission request through `C14.admission` (the object's memory before → after); each incarnation's "
+       "whole history — every cycle and admission request of every object of every kind served, in order — through the Lean container "
+       "`C14.Memories` keyed by `buildKey` (`C14.thread`): the memory the real ResourceMemories finds for an object = the one its last event left")
 LEVEL_TEXT = ("Lean theorems over all event histories of one object in one process: resume_invoked_only_initial (never for a creation, "
               "never on an object being deleted without opt-in), not_for_new, after_fully_handled_never (re-listings/reconnects/later "
               "changes never repeat anything once the object is fully handled), and the at-most-once clause UNGUARDED: "
@@ -51,6 +53,12 @@ LEVEL_TEXT = ("Lean theorems over all event histories of one object in one proce
               "cut_before_memory_repeats_old (universal), json_normalised_variant_old_order_witness (seed C14f on the tree it was "
               "written for; on the code as it is the variant no longer repeats the handler); cut_at_delivery_sibling_repeats_witness: "
               "what still repeats after a cut in the delivery are the handlers that are not resuming ones (C02/C03's matter). "
+              "ONE container for all the objects of the operator (Model/C14_Memories: `ResourceMemories` keyed by `_build_key`; seed C14h): "
+              "crowd_projection — UNGUARDED: in any interleaving of the processed events of all the operator's objects (any kinds, namespaces, "
+              "names; deletions, re-creations) what is invoked for an object is what the per-object model invokes on its own events; "
+              "completed_never_again_crowd — the at-most-once clause for the whole operator process; memory_kept_across_others (frame); "
+              "namesake_index_variant_witness: a name-indexed container that drops the 'previous incarnation' (seed C14h) repeats the "
+              "resume handlers of alike-named objects of two kinds at every re-listing (corpus H1 must pass on the real code). "
               "Model tied to the code per cycle (memory incl. resumed_handlers, cause, selection, invocations, records; for cycles that "
               "returned results or were cut: `C14.stepR` with the measured shapes of the results, incl. WHERE the cycle was cut).")
 THEOREMS = [("Kopf.Props.C14", "Kopf.C14." + n) for n in [
@@ -62,7 +70,8 @@ THEOREMS = [("Kopf.Props.C14", "Kopf.C14." + n) for n in [
     "admitted_first_never_resumed", "admitted_first_witness",
     "completed_never_again_results", "completed_never_again_any_result", "completed_never_again_any_result_run",
     "cut_before_memory_repeats_old", "cut_at_delivery_sibling_repeats_witness",
-    "uncopyable_result_old_order_witness", "json_normalised_variant_old_order_witness"]]
+    "uncopyable_result_old_order_witness", "json_normalised_variant_old_order_witness",
+    "crowd_projection", "completed_never_again_crowd", "memory_kept_across_others", "namesake_index_variant_witness"]]
 RULE = ("seeded scenarios: objects handled by a first incarnation, then stop/kill + restart; 1-3 resume handlers (label filters, "
         "deleted opt-in, failures/retries) next to create/update/delete handlers; re-listings (history compaction + 410), "
         "stream reconnects, edits and label flip-flops before/during/after the resume cycle, deletions; one case = one processing "
@@ -78,8 +87,14 @@ RULE = ("seeded scenarios: objects handled by a first incarnation, then stop/kil
         "set/frozenset, tuple, bytes, Decimal, complex, an object, kopf's own views, UserDict, mappingproxy, int / tuple keys, a "
         "self-referencing list, a lock, a generator; at the top, in a dict, in a list, two levels down; the same result at every call), "
         "alone or beside a sibling that keeps the cycle open, and PATCHes refused or lost (500/503/422, connection lost before/after "
-        "the server applied it), followed by re-listings, reconnects, edits, flips, restarts under default and short error throttling")
-TRUSTED = c02.TRUSTED + ["harness/props/sim_c14.py: `pyvalue` (scenario JSON → the Python value a handler returns), `result_shape` (is it None / a Mapping, "
+        "the server applied it), followed by re-listings, reconnects, edits, flips, restarts under default and short error throttling; "
+        "plus (seed C14h): ONE operator serving SEVERAL kinds (1-3 more resources: namespaced, cluster-scoped, another API group; with a "
+        "resuming, a changing or a mere watching handler) and two namespaces, objects named alike across kinds / namespaces (a parent and "
+        "its child), each kind's watch-stream re-listed (410) / reconnected on its own, neighbours edited, deleted, re-created under "
+        "their name (seen or unseen), namesakes appearing while the operator runs, restarts")
+TRUSTED = c02.TRUSTED + ["harness/props/sim_c14.py: extra resources in the fake cluster, object references plural/namespace/name, per-kind compact/break; "
+                         "the observer's record of which resource a cycle belongs to (a context variable set around process_resource_event)",
+                         "harness/props/sim_c14.py: `pyvalue` (scenario JSON → the Python value a handler returns), `result_shape` (is it None / a Mapping, "
                          "do copy.deepcopy / json.dumps take it: measured on the value, no kopf code), the `_wire` hook (the fake session "
                          "serialises the payload with json.dumps when the request is made, as aiohttp does with json=)",
                          "harness/props/sim_c14.py (fake webhook server that only keeps the webhookfn kopf binds; timeline op `admit`)",
@@ -596,6 +611,100 @@ def gen_results(rng: Any, i: int) -> dict:
     return sc
 
 
+CROWD_KINDS = ["kopfsiblings", "kopfglobals", "kopfcousins"]
+
+
+def _handled_ref(ref: str, label: str = "1") -> dict:
+    return {"ref": ref, "body": _handled_object("-", label)["body"]}
+
+
+def gen_crowd(rng: Any, i: int) -> dict:
+    """ONE operator, SEVERAL kinds and namespaces, ONE memories container (`inventory.ResourceMemories` is shared by
+    everything the operator serves): objects of different kinds / in different namespaces that bear the SAME name (a parent
+    and its child named after it), a cluster-scoped namesake, objects re-created under their name; every kind has its own
+    watch-stream, which is re-listed (410) / reconnected on its own, at its own time; the neighbours are edited, deleted,
+    re-created, created anew while the operator runs, reviewed by nobody. Whatever happens to the OTHER objects, an object's
+    resume handlers run once per process."""
+    kinds = rng.sample(CROWD_KINDS, rng.choice([1, 1, 2, 3]))
+    names = ["a", "a", "a", "b"]
+    handlers: list[dict] = []
+    for k in range(rng.choice([1, 1, 2])):
+        script = [["temp", rng.choice([1.0, 3.0])]] if rng.random() < 0.3 else []
+        handlers.append({"kind": "resume", "id": f"r{k}", "opts": {}, "script": script, "default": "ok"})
+    if rng.random() < 0.4:
+        handlers.append({"kind": "update", "id": "u0", "script": ["ok"]})
+    if rng.random() < 0.2:
+        handlers.append({"kind": "delete", "id": "d0", "opts": {"optional": False}, "script": ["ok"]})
+    objects = [_handled_ref("kopfexamples/ns/a")]
+    if rng.random() < 0.4:
+        objects.append(_handled_ref("kopfexamples/default/a"))       # the same kind and name in another namespace
+    if rng.random() < 0.3:
+        objects.append(_handled_ref("kopfexamples/ns/b"))
+    for n, kind in enumerate(kinds):
+        # any handler on the other kind makes the operator serve it: a resuming one, a changing one, or a mere watcher
+        what = rng.choice(["resume", "resume", "update", "create", "event"])
+        handlers.append({"kind": what, "id": f"x{n}", "resource": kind, "script": [], "default": "ok"})
+        if what != "resume" and rng.random() < 0.3:
+            handlers.append({"kind": "resume", "id": f"y{n}", "resource": kind, "script": [], "default": "ok"})
+        for _ in range(rng.choice([1, 1, 2])):
+            ns = "" if kind == "kopfglobals" else rng.choice(["ns", "ns", "ns", "default"])
+            ref = f"{kind}/{ns}/{rng.choice(names)}"
+            if all(o["ref"] != ref for o in objects):
+                objects.append(_handled_ref(ref))
+    rng.shuffle(handlers)
+    refs = [o["ref"] for o in objects]
+    plurals = ["kopfexamples"] + kinds
+    sc: dict[str, Any] = {"seed": i, "runner": "harness.props.sim_c14:run_scenario", "kinds": kinds,
+                          "lifecycle": rng.choice(["asap", "one_by_one", "all_at_once"]), "handlers": handlers,
+                          "settings": {"execution.default_backoff": 1.0, "watching.reconnect_backoff": 0.125}}
+    tl: list[list] = []
+    t = 0.0
+    if rng.random() < 0.35:
+        # the objects are handled by a first incarnation (created one by one, in any order), then the operator restarts
+        sc["objects"] = []
+        for ref in rng.sample(refs, len(refs)):
+            t += 0.5
+            tl.append([t, "create", ref, {"spec": {"x": 1}, "metadata": {"labels": {"l": "1"}}}])
+        t += 6.0
+        tl += [[t, rng.choice(["stop", "kill"])], [t + 1.0, "start"]]
+        t += 1.0
+    else:
+        sc["objects"] = rng.sample(objects, len(objects))
+    fresh = 0
+    for _ in range(rng.choice([3, 4, 5, 6, 7])):
+        t += rng.choice([0.25, 1.0, 2.0, 4.0])
+        op = rng.choice(["relist", "relist", "relist", "relist", "reconnect", "edit", "delete", "recreate", "newcomer", "restart"])
+        if op == "relist":
+            k = rng.choice(plurals)
+            tl += [[t, "compact", k], [t, "break", "410", k]]
+        elif op == "reconnect":
+            tl.append([t, "break", rng.choice(["eof", "conn"]), rng.choice(plurals)])
+        elif op == "edit":
+            tl.append([t, "edit", rng.choice(refs), {"spec": {"x": rng.randrange(2, 9)}}])
+        elif op == "delete":
+            tl.append([t, "delete", rng.choice(refs[1:] or refs)])
+        elif op == "recreate":      # the same name, a new uid — seen as DELETED + ADDED, or (with a re-listing) not seen going at all
+            ref = rng.choice(refs)
+            tl.append([t, "recreate", ref, rng.choice([_handled_object("-")["body"], {"spec": {"x": 1}, "metadata": {"labels": {"l": "1"}}}])])
+            if rng.random() < 0.5:
+                k = ref.split("/")[0]
+                tl += [[t, "compact", k], [t, "break", "410", k]]
+        elif op == "newcomer":      # a namesake of another kind / in another namespace appears while the operator runs
+            kind = rng.choice(plurals)
+            ns = "" if kind == "kopfglobals" else rng.choice(["ns", "default"])
+            ref = f"{kind}/{ns}/{rng.choice(names)}"
+            if ref not in refs:
+                refs.append(ref)
+                fresh += 1
+                tl.append([t, "create", ref, rng.choice([_handled_object("-")["body"], {"spec": {"x": 1}, "metadata": {"labels": {"l": "1"}}}])])
+        else:
+            tl += [[t, rng.choice(["stop", "kill"])], [t + 1.0, "start"]]
+            t += 1.0
+    sc["timeline"] = tl
+    sc["end"] = t + 25.0
+    return sc
+
+
 def _mem(snap: dict | None, sort: bool = True) -> dict | None:
     """`ResourceMemory` as the model reads it; `noticed_by_listing` is True / False / None (not known yet)."""
     if snap is None:
@@ -642,16 +751,81 @@ def final_call(h: dict, c: dict) -> bool:
     return False     # "subhandlers" (children pending), None (cancelled / still running)
 
 
-def _versions(tr: dict) -> dict[str, list[dict]]:
-    """Every stored version of every kopfexamples object, per uid, in time order (the cluster's own record)."""
+SERVED = ("kopfexamples", "kopfsiblings", "kopfglobals", "kopfcousins")       # see sim_c14.KINDS
+PLURAL_OF_KIND = {"KopfExample": "kopfexamples", "KopfSibling": "kopfsiblings", "KopfGlobal": "kopfglobals", "KopfCousin": "kopfcousins"}
+
+
+def _versions(tr: dict, plurals: dict[str, str] | None = None) -> dict[str, list[dict]]:
+    """Every stored version of every object of the kinds the operator serves, per uid, in time order (the cluster's own
+    record); `plurals` is filled with the kind (plural) of every uid."""
     out: dict[str, list[dict]] = {}
     for key, vs in tr.get("history", {}).items():
-        if not key.startswith("kopfexamples/"):
+        plural = key.split("/")[0]
+        if plural not in SERVED:
             continue
         for v in vs:
             uid = (v["body"].get("metadata") or {}).get("uid")
             if uid:
                 out.setdefault(uid, []).append(v)
+                if plurals is not None:
+                    plurals[uid] = plural
+    return out
+
+
+def _ident(body: dict) -> dict:
+    """What `ResourceMemories._build_key` can read of a raw body (the model's `Ident`)."""
+    meta = body.get("metadata") or {}
+    return {"uid": meta.get("uid"), "kind": body.get("kind"), "apiVersion": body.get("apiVersion"), "name": meta.get("name"),
+            "namespace": meta.get("namespace"), "creationTimestamp": meta.get("creationTimestamp")}
+
+
+def container_entries(ctx: Ctx, sc: dict, tr: dict) -> list[tuple[list, list, dict]]:
+    """The operator's ONE memories container over each incarnation: every processing cycle of every object of every kind
+    (and every admission request served outside a cycle of its object), in the order of happening → one `C14.thread`
+    request per incarnation: [ident, the memory as the entry left it]; the model answers what its container finds for the
+    object right before each entry, which must be what the real container found (`mem_before`)."""
+    per_inc: dict[Any, list] = {}
+    spans: dict[tuple, list] = {}
+    unordered: set[tuple] = set()
+    for cyc in tr["cycles"]:
+        spans.setdefault((cyc["inc"], cyc["uid"]), []).append((cyc["t0"], cyc.get("t1", cyc["t0"])))
+    for cyc in tr["cycles"]:
+        if "error" in (cyc.get("mem_before") or {}) or "error" in (cyc.get("mem_after") or {}) or not cyc.get("uid"):
+            continue
+        per_inc.setdefault(cyc["inc"], []).append((cyc["t0"], 1, cyc["i"], _ident(cyc["body"]), cyc.get("mem_before"), cyc.get("mem_after"),
+                                                   {"cycle": cyc["i"]}))
+    for n, mk in enumerate(tr["marks"]):
+        if mk["what"] != "admit" or mk.get("error") or not mk.get("mem_seen") or not mk.get("uid"):
+            continue
+        if "error" in (mk.get("mem_before") or {}) or "error" in (mk.get("mem_after") or {}):
+            continue
+        if any(a <= mk["t"] <= b for a, b in spans.get((mk.get("inc"), mk["uid"]), [])):
+            # served while a cycle of the same object was at work (or at the very same instant): no order to tell —
+            # this object's entries are left out of the incarnation's history (the others stay)
+            unordered.add((mk.get("inc"), mk["uid"]))
+            ctx.count("container", "object left out: an admission request served during one of its cycles")
+            continue
+        ident = {"uid": mk["uid"], "kind": None, "apiVersion": None, "name": mk.get("name"), "namespace": None, "creationTimestamp": None}
+        per_inc.setdefault(mk.get("inc"), []).append((mk["t"], 0, n, ident, mk.get("mem_before"), mk.get("mem_after"), {"admit": mk["t"]}))
+    out = []
+    for inc, items in per_inc.items():
+        items = [it for it in items if (inc, it[3]["uid"]) not in unordered]
+        items.sort(key=lambda x: x[:3])
+        alive: dict[str, tuple] = {}
+        for it in items:
+            o = it[3]
+            namesakes = sum(1 for u, (nm, ns, kd) in alive.items() if u != o["uid"] and nm == o["name"])
+            if it[4] is None and it[1] == 1:
+                ctx.count("container", f"new key remembered beside {min(namesakes, 2)}{'+' if namesakes > 2 else ''} alike-named object(s) of "
+                          f"{'another kind/namespace' if namesakes else 'no kind'}")
+            elif it[1] == 1:
+                ctx.count("container", f"known key found beside {min(namesakes, 2)} alike-named")
+            if it[5] is None:
+                alive.pop(o["uid"], None)
+            else:
+                alive[o["uid"]] = (o["name"], o["namespace"], o["kind"])
+        out.append((["C14.thread", [[it[3], _mem(it[5])] for it in items]],
+                    [_mem(it[4]) for it in items], {"scenario": sc, "inc": inc, "entries": [it[6] for it in items]}))
     return out
 
 
@@ -710,7 +884,8 @@ def oracle(ctx: Ctx, sc: dict, tr: dict) -> None:
     inc_end = {m["inc"]: m["t"] for m in tr["marks"] if m["what"] in ("stopped", "killed")}
     t_end = max([m["t"] for m in tr["marks"] if m["what"] == "end"] or [0])
     called = {(c["inc"], c["uid"], c["id"]) for c in tr["calls"] if c["id"] in resume_ids}
-    versions = _versions(tr)
+    uid_plural: dict[str, str] = {}
+    versions = _versions(tr, uid_plural)
     first_cycle: dict[tuple, dict] = {}
     for cyc in tr["cycles"]:
         first_cycle.setdefault((cyc["inc"], cyc["uid"]), cyc)
@@ -741,6 +916,8 @@ def oracle(ctx: Ctx, sc: dict, tr: dict) -> None:
                 ctx.count("first_clause", "not-judged: a cycle of the object failed (undeliverable result / lost patch)")
                 continue
             for hid, h in resume_ids.items():
+                if h.get("resource", "kopfexamples") != uid_plural.get(uid):
+                    continue    # a handler of another kind
                 opts = h.get("opts") or {}
                 want_labels = opts.get("labels") or {}
                 def matches(body: dict) -> bool:
@@ -811,10 +988,12 @@ def run(ctx: Ctx) -> None:
     gen(gen_admission, 84_000_000, max(30, n // 8))
     gen(gen_stacked_siblings, 85_000_000, max(20, n // 12))
     gen(gen_results, 86_000_000, max(48, n // 4))
+    gen(gen_crowd, 87_000_000, max(48, n // 4))
     for sc in scenarios:
         ctx.count("generator", sc["gen"])
     results = pool.run_many(scenarios, wall=40.0)
     reqs, impls, where = [], [], []
+    threads: list[tuple[list, list, dict]] = []
     for sc, res in zip(scenarios, results):
         if "trace" not in res:
             raise RuntimeError(f"simulation failed: {str(res)[:2000]}")
@@ -823,6 +1002,7 @@ def run(ctx: Ctx) -> None:
             raise RuntimeError(f"simulation error: {tr['sim_error']}")
         ctx.traces += 1
         oracle(ctx, sc, tr)
+        threads += container_entries(ctx, sc, tr)
         decls = _decls(sc)
         resume_ids = {d["id"] for d in decls if d["gate"]["initial"]}
         lifecycle = sc.get("lifecycle") or "asap"
@@ -869,8 +1049,15 @@ def run(ctx: Ctx) -> None:
             if p is not None and not cut and ("P_after" not in p or "error" in p["P_after"]):
                 continue
             owned = [d["id"] for d in decls]
+            if sc.get("kinds"):
+                # several kinds in one registry: the handlers of THIS object's kind (the code's own `get_resource_handlers`
+                # when the pass was entered; by the declared resource otherwise)
+                plural = PLURAL_OF_KIND.get(cyc["body"].get("kind"), "kopfexamples")
+                ctx.count("cycle_of_kind", plural)
+                mine = {h["id"] for h in sc["handlers"] if h.get("resource", "kopfexamples") == plural}
+                owned = [d["id"] for d in p["decls"]] if p else [d["id"] for d in decls if d["id"] in mine]
             req = ["C14.step", {
-                "decls": p["decls"] if p else decls,
+                "decls": p["decls"] if p else [d for d in decls if d["id"] in owned],
                 "mem": _mem(mb, sort=False),
                 "flags": flags, "matched": p["matched"] if p else [], "lifecycle": lifecycle,
                 "limits": p["limits"] if p else {}, "P": p["P"] if p else {},
@@ -906,11 +1093,26 @@ def run(ctx: Ctx) -> None:
             impls.append(impl)
             where.append({"scenario": sc, "cycle": cyc["i"]})
     try:
-        outs = ctx.driver.ask(reqs)
+        outs = ctx.driver.ask(reqs + [t[0] for t in threads])
     except leanio.LeanError as e:
         ctx.tie_fail(f"Lean driver failed: {e}", {"log": e.log})
         return
-    for req, impl, out, wh in zip(reqs, impls, outs, where):
+    # the container: what the model's `Memories` finds under the object's key before each entry = what the real one found
+    for (req, found, wh), out in zip(threads, outs[len(reqs):]):
+        if not out or out[0] != "ok" or len(out[1]) != len(found):
+            ctx.tie_fail("driver rejected an incarnation's container history", {"request": req, "answer": out, **wh})
+            continue
+        for n, (ans, real) in enumerate(zip(out[1], found)):
+            m = ans["mem"]
+            if m is not None:
+                m["resumed"] = sorted(set(m["resumed"]))
+            if m != real:
+                ctx.compare("C14 memories container (the memory found for an object is the one its last event left)",
+                            {"mem": real}, {"mem": m}, {**wh, "entry": n, "key": ans["key"]})
+                break
+        else:
+            ctx.compare("C14 memories container (the memory found for an object is the one its last event left)", True, True, wh)
+    for req, impl, out, wh in zip(reqs, impls, outs[:len(reqs)], where):
         if not out or out[0] != "ok":
             ctx.tie_fail("driver rejected a cycle", {"request": req, "answer": out, **wh})
             continue
@@ -939,7 +1141,7 @@ def run(ctx: Ctx) -> None:
 
 
 ALL_GENS = [(gen_scenario, 8), (gen_relist_midcycle, 2), (gen_stale_view, 1), (gen_down_ops, 3), (gen_allfiltered, 2),
-            (gen_shapes, 3), (gen_admission, 3), (gen_stacked_siblings, 1), (gen_results, 4)]
+            (gen_shapes, 3), (gen_admission, 3), (gen_stacked_siblings, 1), (gen_results, 4), (gen_crowd, 4)]
 
 
 def search(ctx: Ctx, broken: list) -> None:
